@@ -419,7 +419,8 @@ def pipeline_program(params):
                       ty2=(b or a or {"ty": "none"})["ty"])
 
         s.log("cfg", recursive=bool(recursive), full=bool(full), ty="bytes" if isinstance(root, bytes) else "str", spell=spell, paced=bool(params.get("paced", True)),
-              filter=sorted(filt) if filt is not None else [], contract=bool(params.get("contract", False)))
+              filter=sorted(filt) if filt is not None else [], filtered=filt is not None, contract=bool(params.get("contract", False)),
+              ty3=("str" if isinstance(root, bytes) else "bytes") if params.get("other_type_watch") else "none")
         polling = params.get("observer") in ("polling", "pollingvfs")
         if params.get("observer") == "pollingvfs":
             # every stat / listdir of the snapshot walk is a yield point: the tree may change under the walker
@@ -446,6 +447,11 @@ def pipeline_program(params):
             s.wait_quiescent()
 
         obs.schedule(Rec(1), root, recursive=recursive)
+        if params.get("other_type_watch"):
+            # the same directory scheduled once more with a root of the OTHER string type (handler 3): two watches, each
+            # handler gets paths of the type it asked with (C19)
+            other = os.fsdecode(root) if isinstance(root, bytes) else os.fsencode(str(root))
+            obs.schedule(Rec(3), other, recursive=recursive)
         if filt is not None:
             classes = [getattr(events, n) for n in filt]
             obs.schedule(Rec(2), root, recursive=recursive, event_filter=classes)
